@@ -3,7 +3,7 @@
 (mutsweep/survivors.json: id -> reason why the mutant is equivalent / outside every
 property's domain) and print the summary used in DESIGN.md section 8 (d).
 
-usage: tools/mutsweep_report.py [--grammar|--tokens] <shard.jsonl>... ; writes mutsweep/results.jsonl
+usage: tools/mutsweep_report.py [--grammar|--tokens|--lexer] <shard.jsonl>... ; writes mutsweep/results.jsonl
 (--grammar: mutants_grammar.jsonl / survivors_grammar.json / results_grammar.jsonl)
 """
 import json, sys, collections, os
@@ -16,6 +16,9 @@ if "--grammar" in sys.argv:
 if "--tokens" in sys.argv:
     sys.argv.remove("--tokens")
     sfx = "_tokens"
+if "--lexer" in sys.argv:
+    sys.argv.remove("--lexer")
+    sfx = "_lexer"
 MUT, NOTES, RES = f"mutants{sfx}.jsonl", f"survivors{sfx}.json", f"results{sfx}.jsonl"
 valid = {json.loads(l)["id"] for l in open(os.path.join(here, MUT))}
 notes = json.load(open(os.path.join(here, NOTES))) if os.path.exists(os.path.join(here, NOTES)) else {}
